@@ -4,11 +4,13 @@ import GrafeoModel.Proofs.LpgLemmas
 /-!
 # C01 — snapshot reads;  C02 — commit / rollback all-or-nothing   (what holds, and witnesses)
 
-The full statements are **refuted** on the unchanged tree (witness theorems below, each replayed
-against the implementation by the check and listed as a known finding): versions are stamped
-with the writer's *start* epoch and never re-stamped at commit, labels / properties / adjacency
-are single-version, and enumerations use the store's own epoch. What does hold for every state
-and every reader is proved as `_partial` theorems.
+The model is the code after the MVCC repairs (versions of an open transaction are stamped
+`pendingEpoch` and re-stamped at commit, auto-commit writes take a fresh epoch, neighbour listings
+are filtered, rollback cleans the adjacency lists). The scenarios that used to witness a dirty
+read, a scan that missed committed nodes and a rolled-back edge in the adjacency list are kept as
+regression theorems: they now come out right. Properties, labels and deletion marks are still
+single-version (listed findings `in-place-change-outside-transaction`,
+`rolled-back-change-persists`): the witnesses for those are below.
 -/
 
 namespace Grafeo.Sess
@@ -35,16 +37,22 @@ theorem c01_later_starter_node_invisible_partial (s : Store) (id epoch tx : Nat)
     simp [this]
   simp [this]
 
-/-- P (C01): a transaction sees every node it created (until it deletes it), whatever else
-happens to other identifiers. -/
+/-- P (C01): a session sees every node it creates, inside a transaction (pending, own) and
+outside (stamped with the fresh epoch, which is the viewing epoch from then on). -/
 theorem c01_own_create_visible_partial (w : World) (k : Nat) (labels : List Nat) :
     ((w.createNode k labels).1.getNode k (w.createNode k labels).2).isSome = true := by
-  have hctx : (w.createNode k labels).1.ctx k = w.ctx k := rfl
-  unfold World.getNode
-  rw [hctx]
-  unfold World.createNode Store.createNode Store.getNodeTo
-  simp only [aget_aset, if_true]
-  simp [chainVisibleTo, Ver.visibleTo]
+  unfold World.createNode World.writeCtx World.getNode World.ctx World.curOf
+  cases h : (aget w.cur k).getD none with
+  | some slot =>
+    simp only [h]
+    unfold Store.createNode Store.getNodeTo
+    simp only [aget_aset, if_true]
+    simp [chainVisibleTo, Ver.visibleTo, txIdOf]
+  | none =>
+    simp only [h, World.freshEpoch]
+    unfold Store.createNode Store.getNodeTo Store.syncEpoch
+    simp only [aget_aset, if_true, h]
+    simp [chainVisibleTo, Ver.visibleTo, Ver.visibleAt, systemTx]
 
 theorem aget_none_of_forall {ν : Type} (l : AList ν) (k : Nat) (h : ∀ kv ∈ l, kv.1 ≠ k) : aget l k = none := by
   induction l with
@@ -76,33 +84,69 @@ theorem c02_rollback_removes_created_versions_partial (s : Store) (tx id epoch r
     rw [this] at hne; simp at hne
   rw [this]
 
-/-- W (C01, dirty read): a node created inside an open transaction of session 1 is returned to
-session 0's point lookup and label scan before session 1 commits. -/
-theorem c01_dirty_read_witness :
+/-- R (C01, was the dirty-read witness): a node created inside an open transaction of session 1 is
+invisible to session 0's point lookup, label scan and unlabelled scan, visible to session 1, and
+visible to everybody after the commit. -/
+theorem c01_no_dirty_read_regression :
     let w0 : World := {}
     let w1 := (w0.begin 1 .snapshot).1
     let w2 := (w1.createNode 1 [7]).1
-    (w2.getNode 0 0).isSome = true ∧ w2.scanLabel 0 7 = [0] := by decide
+    let w3 := (w2.commit 1).1
+    (w2.getNode 0 0).isNone = true ∧ w2.scanLabel 0 7 = [] ∧ w2.scanAll 0 = [] ∧
+    (w2.getNode 1 0).isSome = true ∧ w2.scanAll 1 = [0] ∧
+    (w3.getNode 0 0).isSome = true ∧ w3.scanAll 0 = [0] := by decide
 
-/-- W (C01, store epoch): after one committed transaction the manager's epoch is 1; a node
-created afterwards is stamped 1 and is missing from the unlabelled scan and from the count
-(both enumerate at the store's epoch 0), while the label scan finds it. -/
-theorem c01_store_epoch_witness :
+/-- R (C01, was the store-epoch witness): a node created after a committed transaction is found
+by the unlabelled scan, `node_ids` and the label scan alike. -/
+theorem c01_store_epoch_regression :
     let w0 : World := {}
     let w1 := (w0.begin 0 .snapshot).1
     let w2 := (w1.commit 0).1
     let w3 := (w2.createNode 0 [7]).1
-    w3.scanAll 0 = [] ∧ w3.store.nodeIds = [] ∧ w3.scanLabel 0 7 = [0] := by decide
+    w3.scanAll 0 = [0] ∧ w3.store.nodeIds = [0] ∧ w3.scanLabel 0 7 = [0] := by decide
 
-/-- W (C02): an edge created in a transaction that is then rolled back stays in the adjacency
-list of its source node. -/
-theorem c02_rolled_back_edge_in_adjacency_witness :
+/-- R (C01): a snapshot taken before another transaction commits, or before an auto-commit write,
+does not see that work; a transaction that begins afterwards does. -/
+theorem c01_snapshot_regression :
+    let w0 : World := {}
+    let w1 := (w0.begin 0 .snapshot).1          -- reader
+    let w2 := (w1.begin 1 .snapshot).1
+    let w3 := (w2.createNode 1 [7]).1
+    let w4 := (w3.commit 1).1                   -- committed after the reader began
+    let w5 := (w4.createNode 2 [7]).1           -- auto-commit write after the reader began
+    let w6 := (w5.begin 3 .snapshot).1
+    w5.scanLabel 0 7 = [] ∧ w5.scanAll 0 = [] ∧ w6.scanLabel 3 7 = [0, 1] := by decide
+
+/-- R (C02, was the rolled-back-edge witness): after rollback the edge is gone from the adjacency
+list too. -/
+theorem c02_rolled_back_edge_regression :
     let w0 : World := {}
     let w1 := (w0.createNode 0 []).1
     let w2 := (w1.begin 0 .snapshot).1
     let w3 := (w2.createEdge 0 0 0 0).1
     let w4 := (w3.rollback 0).1
-    w4.outgoing 0 0 = [(0, 0)] ∧ (w4.getEdge 0 0).isNone = true := by decide
+    w3.outgoing 0 0 = [(0, 0)] ∧ w3.outgoing 1 0 = [] ∧
+    w4.outgoing 0 0 = [] ∧ w4.store.outEdges 0 = [] ∧ (w4.getEdge 0 0).isNone = true := by decide
+
+/-- W (C01, open): a property set by query text inside session 1's open transaction is read by
+session 0 at once — properties are single-version. -/
+theorem c01_in_place_change_witness :
+    let w0 : World := {}
+    let w1 := (w0.dbCreateNode []).1
+    let w2 := (w1.begin 1 .snapshot).1
+    let w3 := (w2.qSetProp 1 0 0 "I3").1
+    (w3.getNode 0 0) = some ([], [(0, "I3")]) := by decide
+
+/-- W (C02, open): … and it is still there after session 1 rolls back; so is a deletion. -/
+theorem c02_rolled_back_change_persists_witness :
+    let w0 : World := {}
+    let w1 := (w0.dbCreateNode []).1
+    let w2 := (w1.dbCreateNode []).1
+    let w3 := (w2.begin 1 .snapshot).1
+    let w4 := (w3.qSetProp 1 0 0 "I3").1
+    let w5 := (w4.qDetachDelete 1 1).1
+    let w6 := (w5.rollback 1).1
+    (w6.getNode 0 0) = some ([], [(0, "I3")]) ∧ (w6.getNode 0 1).isNone = true := by decide
 
 /-- N: the partial theorems are not vacuous. -/
 example : (⟨3, 5, none⟩ : Ver).visibleTo 2 4 = false := by decide
